@@ -75,7 +75,7 @@ def _run_query(spec, tier, qname, mism, logdir):
     q = [x for x in mod.make_queries(tier) if x.__name__ == qname][0]
     if True:
         r = engine.solve_query(q, files, tier, K=K, N=N, timeout_ms=spec.get("timeout_ms", 300000), native_map=native_map,
-                               lits=lits, overrides=overrides)
+                               lits=lits, overrides=overrides, logic=getattr(mod, "LOGIC", "QF_BV"))
         r["harness"] = "%s::%s" % (spec["module"], q.__name__)
         r["bounds"] = {"split_parts_max": K + 1, "per_char_ops_max_len": N, "string_capacity_max": engine.bstr.MAXCAP,
                        "tier_caps": getattr(mod, "caps", lambda t: {})(tier)}
